@@ -162,7 +162,9 @@ TrDeps ==
           <<e.othersUntouched, "Deps:more-than-one-manifest-touched">>,
           <<e.shapeOk, "Deps:malformed-changeset">>,
           <<(expect.deps /\ e.store # NoC) => e.store \in ToSet(expect.cand), "Deps:manifest-that-declares-the-package-or-cannot-take-it-was-changed">>,
-          <<(expect.deps /\ expect.mustOne /\ e.wanted) => e.store # NoC, "Deps:no-manifest-updated-although-one-could-be">>,
+          \* (once a manifest of the run has taken the package, later codemods needing it have nothing to add)
+          <<(expect.deps /\ expect.mustOne /\ e.wanted /\ ToSet(expect.cand) \cap changed = {}) => e.store # NoC,
+             "Deps:no-manifest-updated-although-one-could-be">>,
           <<e.parsesOk, "Deps:manifest-no-longer-parses">>,
           <<e.keptOk, "Deps:declared-requirement-or-comment-lost">>,
           <<e.addedOk, "Deps:needed-requirement-not-added-exactly-once">>,
